@@ -24,6 +24,7 @@ def encVal : PyVal → String
   | .negInf => "m"
   | .posInf => "p"
   | .obj c fs => "O" ++ c ++ "{" ++ encFields fs ++ "}"
+  | .unbound => "?"
 def encVals : List PyVal → String
   | [] => ""
   | [v] => encVal v
